@@ -131,6 +131,18 @@ CLAIMS = {
         "technique": "TLA+ semi-graphoid closure / exact independence on joints / I-map sets; TLC-enumerated cases replayed on the code",
         "design_ref": "6/C18",
     },
+    "C13": {
+        "text": ("spec/Gen_C13.tla defines graph surgery, the truncated factorisation (exact integers) and the back-door / front-door criteria by "
+                 "quantification over simple trails whose first edge points into the treatment. TLC enumerates (instance, latent subset, "
+                 "treatment, outcome) on 3-5 node networks and the harness replays: BayesianNetwork.do (exactly the incoming edges removed, "
+                 "intervened CPDs parent-free, all other CPDs untouched and not shared, original unchanged), CausalInference.query with the "
+                 "default and EVERY valid back-door adjustment set, ve and bp back-ends, single and two-variable do-sets incl. parent-child "
+                 "pairs (= truncated factorisation), is_valid_backdoor_adjustment_set / is_valid_adjustment_set on every candidate set of observed "
+                 "non-descendants (= criterion), and every set returned by get_all_backdoor/frontdoor_adjustment_sets and get_minimal_adjustment_set."),
+        "note": "Strictly positive CPDs; one clamp value per do-variable; <=1 latent; known finding: default adjustment for joint interventions when a parent of one do-variable descends from another.",
+        "technique": "TLA+ path-based criteria and truncated factorisation; TLC-enumerated cases replayed on the code",
+        "design_ref": "6/C13",
+    },
 }
 
 NOT_APPLICABLE = {}
